@@ -33,6 +33,7 @@ type Program struct {
 	LoadErrors   []string
 	purity       *purityInfo
 	purityMu     sync.Mutex
+	byName       map[string]*types.Package
 }
 
 // loadProgram loads the packages named by pkgRel (relative import paths under
@@ -88,7 +89,7 @@ func loadProgram(repoDir, verifDir string, pkgRel []string) (*Program, error) {
 		return nil, fmt.Errorf("package load errors: %s", strings.Join(p.LoadErrors, "; "))
 	}
 	p.Pkgs = pkgs
-	prog, spkgs := ssautil.Packages(pkgs, ssa.GlobalDebug|ssa.BuildSerially)
+	prog, spkgs := ssautil.AllPackages(pkgs, ssa.GlobalDebug|ssa.BuildSerially)
 	p.SSA = prog
 	for i, sp := range spkgs {
 		if sp == nil {
@@ -289,4 +290,33 @@ func lookupType(pkg *types.Package, name string) types.Type {
 		}
 	}
 	return nil
+}
+
+// pkgByName finds a package of the loaded program by its name (first match in import-graph order).
+func (p *Program) pkgByName(name string) *types.Package {
+	p.purityMu.Lock()
+	defer p.purityMu.Unlock()
+	if p.byName == nil {
+		p.byName = map[string]*types.Package{}
+		seen := map[string]bool{}
+		var walk func(pk *packages.Package)
+		walk = func(pk *packages.Package) {
+			if seen[pk.PkgPath] {
+				return
+			}
+			seen[pk.PkgPath] = true
+			if pk.Types != nil {
+				if _, dup := p.byName[pk.Types.Name()]; !dup {
+					p.byName[pk.Types.Name()] = pk.Types
+				}
+			}
+			for _, im := range pk.Imports {
+				walk(im)
+			}
+		}
+		for _, pk := range p.Pkgs {
+			walk(pk)
+		}
+	}
+	return p.byName[name]
 }
